@@ -179,6 +179,42 @@ theorem token_bound (ops : List Op) (hseal : (run {} ops).vSeal = false) :
       ∃ r, cr.rscid = some r ∧ (cr.addr, cr.odcid, r) ∈ (run {} ops).tokens :=
   (run_k {} ops hseal).2 (by intro cr hcr; simp at hcr)
 
+/-- "tokens it issued to that address": the address a token is bound to is compared through
+    retry.py `encode_address` (model `encodeAddress`, compared with the real function over a host / port
+    grid by the check).  The encoding is injective on (packed host, port < 65536): two source addresses
+    with the same encoding are the same host AND the same port — so the abstract address equality of
+    `token_bound` is equality of real (host, port) pairs. -/
+theorem encode_address_injective (h h' : Bytes) (p p' : Nat) (b : Bytes)
+    (e : encodeAddress h p = .ok b) (e' : encodeAddress h' p' = .ok b) : h = h' ∧ p = p' := by
+  simp only [encodeAddress] at e e'
+  split at e
+  · cases e
+  · split at e'
+    · cases e'
+    · rename_i hp hp'
+      have heq : h' ++ [UInt8.ofNat (p' / 256), UInt8.ofNat (p' % 256)] =
+          h ++ [UInt8.ofNat (p / 256), UInt8.ofNat (p % 256)] :=
+        (Except.ok.inj e').trans (Except.ok.inj e).symm
+      obtain ⟨h1, h2⟩ := List.append_inj' heq rfl
+      simp only [List.cons.injEq, and_true] at h2
+      have a1 : p / 256 < 256 := by omega
+      have a2 : p' / 256 < 256 := by omega
+      have b1 : p % 256 < 256 := Nat.mod_lt _ (by decide)
+      have b2 : p' % 256 < 256 := Nat.mod_lt _ (by decide)
+      have c1 : p' / 256 = p / 256 := by
+        have := congrArg UInt8.toNat h2.1
+        simpa [UInt8.toNat_ofNat, Nat.mod_eq_of_lt a1, Nat.mod_eq_of_lt a2] using this
+      have c2 : p' % 256 = p % 256 := by
+        have := congrArg UInt8.toNat h2.2
+        simpa [UInt8.toNat_ofNat, Nat.mod_eq_of_lt b1, Nat.mod_eq_of_lt b2] using this
+      exact ⟨h1.symm, by omega⟩
+
+/-- every port a UDP datagram can come from is encodable -/
+theorem encode_address_total (h : Bytes) (p : Nat) (hp : p < 65536) : ∃ b, encodeAddress h p = .ok b := by
+  simp only [encodeAddress]
+  have : ¬ p / 256 > 255 := by omega
+  simp [this]
+
 /-! ## the hypotheses are satisfiable on runs where everything happens -/
 
 /-- handshake, pings, connection IDs issued (also from `transmit()`) and retired, streams, termination,
@@ -216,3 +252,5 @@ end AQ.Props.C19
 #print axioms AQ.Props.C19.routing_inv
 #print axioms AQ.Props.C19.routing_counterexample
 #print axioms AQ.Props.C19.token_bound
+#print axioms AQ.Props.C19.encode_address_injective
+#print axioms AQ.Props.C19.encode_address_total
